@@ -4,7 +4,8 @@ The real functions are run with real multiprocessing pools (worker counts 1..16,
 worker count and around the chunking boundary 4*k, argument dependent sleeps that reverse/shuffle the
 completion order, raising tasks at every position, timeouts shorter than the slowest task, dying worker
 processes, secmet Records crossing the process boundary).  Each task travels to the Coq model as its
-SEQUENTIAL outcome (computed in-process: digest of the returned value, or the exception kind); the model
+SEQUENTIAL outcome (computed in-process: digest of the returned value, or the exception kind) together with its
+DURATION CLASS (does it run longer than the timeout?); the model
 (coq/C18/Model.v) evaluates parallel_function over its pool state machine under a schedule, which is an
 argument: the schedule planned from the sleeps, the schedule reconstructed from the start/end time stamps
 the workers left in shared memory, and random schedules (the proved theorems say the outcome does not
@@ -46,6 +47,10 @@ class HarnessOnlyError(Exception):
 FAULTS[8] = HarnessOnlyError
 
 KNOWN_HANG = "C18-K1"   # id in known_findings.json: a dying worker process without timeout hangs parallel_function
+KNOWN_K2 = "C18-K2"     # the cpus == 1 shortcut of parallel_function ignores the timeout (model: finding_K2, class 2)
+K2_CLASS = "cpus1_shortcut_ignores_timeout"
+FN_TIMELY = 7           # model: does the schedule agree with the duration classes?
+SLOW_SLEEP = 2.5        # seconds a "slow" in-process task really sleeps (against a timeout of 1 s)
 
 # ---------------------------------------------------------------- worker functions (module level: picklable)
 
@@ -734,12 +739,31 @@ def lifo_schedule(procs, nchunks):
 
 # ---------------------------------------------------------------- encoding
 
-def enc_case(fn, cfg, cpus, timeout_ticks, seq, schedule):
+def slow_flags(spec, n):
+    """ the duration class of every job: 1 = it runs longer than the timeout (cannot end before the timeout has
+        passed), 0 = negligible.  Without a timeout there is nothing to exceed; a timeout of 0 is exceeded by
+        every job; otherwise: a task that waits for a go signal given only after the call has returned, a task
+        whose worker dies (it never ends), a task that really sleeps longer than the timeout, a command marked
+        as blocking """
+    timeout = spec["timeout"]
+    if timeout is None:
+        return [0] * n
+    if timeout == 0:
+        return [1] * n
+    if spec["kind"] == "work":
+        return [1 if (t[3:4] == [SYNC_WAIT] or t[2] == CRASH or (t[3:4] in ([], [0]) and t[1] > timeout)) else 0
+                for t in spec["tasks"]]
+    if spec["kind"] == "exec":
+        return [1 if i in spec.get("slow", ()) else 0 for i in range(n)]
+    return [0] * n
+
+
+def enc_case(fn, cfg, cpus, timeout_ticks, seq, schedule, slow=None):
     flat = [PROP, fn, cfg, cpus or 0]
     flat += [0] if timeout_ticks is None else [1, timeout_ticks]
     flat += [len(seq)]
-    for o in seq:
-        flat += [o[0], o[1]]
+    for i, o in enumerate(seq):
+        flat += [slow[i] if slow else 0, o[0], o[1]]
     flat += [len(schedule)]
     for kind, w in schedule:
         flat += [kind, w]
@@ -838,6 +862,20 @@ def gen_work_cases(rng, tier):
     # the shortcut ignores the timeout
     specs.append({"kind": "work", "cfg": 1, "cpus": 1, "timeout": 0, "tasks": [[1, 0.01, 0], [2, 0.0, 0]],
                   "generator": False, "class": "timeout"})
+    # ONE worker and a timeout of one second (the in-process shortcut; nobody could give a go signal, so the slow
+    # task really sleeps SLOW_SLEEP seconds - it cannot end early, whatever the load): worker count given
+    # directly and through the configuration; all fast with a generous timeout; a raising task before the slow one
+    # (which then never runs)
+    for cfg, cpus in ([(2, 1), (1, None)] if not thorough else [(2, 1), (1, None), (1, 0), (7, 1)]):
+        n = rng.choice([1, 2, 3, 5])
+        tasks = [[rng.randrange(0, 150), 0.0, 0] for _ in range(n)]
+        tasks[rng.randrange(n)][1] = SLOW_SLEEP
+        specs.append({"kind": "work", "cfg": cfg, "cpus": cpus, "timeout": 1, "tasks": tasks, "generator": rng.random() < 0.5,
+                      "class": "timeout-1worker"})
+    specs.append({"kind": "work", "cfg": 2, "cpus": 1, "timeout": 60, "generator": False, "class": "timeout-1worker",
+                  "tasks": [[rng.randrange(0, 150), 0.0, 0] for _ in range(rng.choice([0, 1, 4]))]})
+    specs.append({"kind": "work", "cfg": 1, "cpus": None, "timeout": 1, "generator": False, "class": "timeout-1worker",
+                  "tasks": [[3, 0.0, 0], [4, 0.0, rng.choice(sorted(FAULTS))], [5, SLOW_SLEEP, 0]]})
     # a dying worker process: with a timeout it surfaces as RuntimeError, without one the call never returns
     for k, timeout in ([(2, 1), (3, None)] if not thorough else [(2, 1), (8, 1), (3, None), (16, None)]):
         n = k + 1
@@ -917,8 +955,29 @@ def gen_exec_cases(rng, tier):
     # a command that does not finish before the call has returned: it polls for a file that is created afterwards
     go = os.path.join(tempfile.gettempdir(), f"c18_go_{os.getpid()}_{rng.randrange(10 ** 9)}")
     blocking = f"i=0; while [ ! -e {go} ] && [ $i -lt 600 ]; do sleep 0.05; i=$((i+1)); done"
-    specs.append({"kind": "exec", "cfg": 2, "cpus": 2, "timeout": 1, "go": go,
+    specs.append({"kind": "exec", "cfg": 2, "cpus": 2, "timeout": 1, "go": go, "slow": [1],
                   "commands": [["sh", "-c", "exit 0"], ["sh", "-c", blocking]], "class": "exec-timeout"})
+    # the same for EVERY worker count generated above, one worker included (parallel_execute has no in-process
+    # shortcut: one worker is a pool of one), worker count given directly or through the configuration; batch of
+    # one, and more commands than workers; return codes non-zero.  The blocking command gives up after 6 s, so a
+    # dispatcher that runs it in-process comes back (with a list) instead of hanging
+    for k in ([1, 2, 4] if tier == "quick" else [1, 2, 3, 4, 8, 16]):
+        shapes = [1, 3] if k == 1 else [rng.choice([1, k + 1, 4 * k + 1])]
+        for n in shapes:
+            go = os.path.join(tempfile.gettempdir(), f"c18_go_{os.getpid()}_{rng.randrange(10 ** 9)}")
+            blocking = f"i=0; while [ ! -e {go} ] && [ $i -lt 120 ]; do sleep 0.05; i=$((i+1)); done; exit 4"
+            commands = [["sh", "-c", f"exit {rng.choice([0, 0, 2, 5])}"] for _ in range(n)]
+            pos = rng.randrange(n)
+            commands[pos] = ["sh", "-c", blocking]
+            cfg, cpus = (k, rng.choice([None, 0])) if rng.random() < 0.4 else (2, k)
+            specs.append({"kind": "exec", "cfg": cfg, "cpus": cpus, "timeout": 1, "go": go, "slow": [pos],
+                          "commands": commands, "class": "exec-timeout"})
+        # a command that cannot be started (child_process raises) among commands that can
+        n = rng.choice([1, k + 1])
+        commands = [["sh", "-c", f"exit {rng.choice([0, 3])}"] for _ in range(n)]
+        commands[rng.randrange(n)] = ["/nonexistent/binary_c18"]
+        specs.append({"kind": "exec", "cfg": 2, "cpus": k, "timeout": rng.choice([None, 60]), "commands": commands,
+                      "class": "exec-missing-binary"})
     specs.append({"kind": "exec", "cfg": 2, "cpus": -2, "timeout": None, "commands": [["sh", "-c", "exit 0"]],
                   "class": "exec-bad-cpus"})
     specs.append({"kind": "exec", "cfg": 2, "cpus": 2, "timeout": None,
@@ -1090,10 +1149,19 @@ RULE = ("real multiprocessing pools: worker counts 1..16 (quick: 1,2,3,4,5,8,13,
         "chunking boundary); argument dependent sleeps (none, reversed, sawtooth, random) so that completion order differs "
         "from argument order; result values of seven shapes up to 100 kB; a raising task (8 exception kinds) at every position; "
         "two kinds with the later one reported first (ordering enforced by a go-file event, not by sleeps); timeouts 0/1 s against "
-        "tasks that cannot finish before the call has returned (they wait for a signal given afterwards); dying worker processes; "
+        "tasks that cannot finish before the call has returned (they wait for a signal given afterwards); ONE worker with a "
+        "timeout of 1 s against a task that really sleeps 2.5 s (the in-process shortcut: finding C18-K2), with a generous timeout, "
+        "with a raising task first; dying worker processes; "
         "secmet Records (genes, protoclusters, regions, circular) through identity, sanitise_sequence and ensure_cds_info with a stub "
-        "gene finder; parallel_execute with real child processes.  Every implementation run is compared with the model under the "
-        "planned schedule, the schedule reconstructed from the workers' time stamps and random/LIFO schedules (where the outcome is "
+        "gene finder; parallel_execute with real child processes for 1, 2, 4 (thorough 1,2,3,4,8,16) workers, given directly or "
+        "through the configuration: all fast, non-zero return codes, empty batch, more commands than workers, a command that cannot "
+        "be started, and - for EVERY one of these worker counts, one worker included - a timeout of 1 s against a command that blocks "
+        "until after the call has returned.  Every job travels to the model as (duration class: exceeds the timeout or not, "
+        "sequential outcome); every implementation output is judged by the decidable specification tspec_ok (the dispatcher's "
+        "sequential specification, independent of the worker count: an error when a job exceeds the timeout or raises, otherwise the "
+        "results in argument order) and compared with the model under the "
+        "planned schedule (checked by the model to agree with the duration classes), the schedule reconstructed from the workers' "
+        "time stamps and random/LIFO schedules (where the outcome is "
         "schedule independent).  record_processing.pre_process_sequences itself (the real caller): batches of 0..9 (thorough ..17) real "
         "Records (clean, lower case, gapped, IUPAC, gaps/Ns only WITH CDS annotations, dashes only, short, empty; with/without CDS, "
         "preset skip flags; options minlength, limit, limit_to_record, skip_sanitisation, reuse_results, gene finding on/off/GFF3, a "
@@ -1108,8 +1176,23 @@ RULE = ("real multiprocessing pools: worker counts 1..16 (quick: 1,2,3,4,5,8,13,
 
 
 def describe(flat):
-    return {"function": {1: "parallel_function", 2: "parallel_execute", 3: "pre_process_sequences"}.get(flat[1], flat[1]),
-            "payload": flat[2:]}
+    doc = {"function": {1: "parallel_function", 2: "parallel_execute", 3: "pre_process_sequences"}.get(flat[1], flat[1]),
+           "payload": flat[2:]}
+    if flat[1] in (FN_PF, FN_PE):
+        try:
+            pos = 4
+            timeout = None
+            if flat[pos]:
+                timeout = flat[pos + 1]
+                pos += 1
+            pos += 1
+            n = flat[pos]
+            jobs = [flat[pos + 1 + 3 * i:pos + 4 + 3 * i] for i in range(n)]
+            doc.update({"config_cpus": flat[2], "cpus (0 = not given)": flat[3], "timeout": timeout,
+                        "jobs (exceeds the timeout, 0 returns / 1 raises, value digest / exception kind)": jobs[:40]})
+        except (IndexError, TypeError):
+            pass
+    return doc
 
 
 def run(chk):
@@ -1119,7 +1202,7 @@ def run(chk):
     specs = (gen_work_cases(rng, chk.tier) + gen_record_cases(rng, chk.tier) + gen_exec_cases(rng, chk.tier)
              + gen_preproc_cases(rng, chk.tier) + gen_cassis_cases(rng, chk.tier))
     # slow cases first, so that they overlap with the rest instead of forming a tail
-    specs.sort(key=lambda sp: 0 if sp["class"] in ("crash", "timeout", "exec-timeout", "mixed-fault") else 1)
+    specs.sort(key=lambda sp: 0 if sp["class"] in ("crash", "timeout", "timeout-1worker", "exec-timeout", "mixed-fault") else 1)
     known = {f["id"]: f for f in common.load_known_findings("C18") if f.get("status") == "known"}
     # the implementation runs in helper processes (non-daemonic, so that they may own pools), 4 at a time
     workers = 4
@@ -1131,7 +1214,7 @@ def run(chk):
         for spec in specs:
             if spec.get("go") and os.path.exists(spec["go"]):
                 os.unlink(spec["go"])
-    cases, impl_outs, meta = [], [], []
+    cases, impl_outs, meta, planned = [], [], [], []
     variants = 20 if chk.tier == "quick" else 30
     # pre_process_sequences: every worker count against the in-process (one worker) run, field by field
     reference = {spec["batch"]: res for spec, res in zip(specs, results) if spec["kind"] == "preproc" and spec["cfg"] == 1}
@@ -1210,8 +1293,8 @@ def run(chk):
             tasks = spec["tasks"]
         else:
             tasks = [[0, 0.0, 0] for _ in range(n)]
-            if cls == "exec-timeout":
-                tasks[1][1] = 3.0
+            for i in spec.get("slow", ()):
+                tasks[i][1] = 3.0
         schedules = []
         if pool:
             schedules.append(("planned", planned_schedule(eff, tasks, seq)))
@@ -1242,23 +1325,36 @@ def run(chk):
                               else "gt_4k"))
         if out[0] == 1:
             chk.count("impl_error_" + common.ERR_NAME.get(out[1], str(out[1])))
+        slow = slow_flags(spec, n)
+        if any(slow):
+            chk.count("runs_with_a_job_exceeding_the_timeout")
+            chk.count(f"runs_with_a_job_exceeding_the_timeout_workers_{eff}")
         for name, schedule in schedules:
-            flat = enc_case(fn, spec["cfg"], spec["cpus"], timeout, seq, schedule)
+            flat = enc_case(fn, spec["cfg"], spec["cpus"], timeout, seq, schedule, slow)
+            if name == "planned" and cls != "crash":
+                planned.append((flat, cls))
             cases.append(flat)
             impl_outs.append(out)
             meta.append((spec, name))
             chk.count("schedule_" + name)
-            nontrivial = (pool and nchunks >= 2) or cls in ("fault", "mixed-fault", "timeout", "crash", "exec-timeout")
+            nontrivial = (pool and nchunks >= 2) or cls in ("fault", "mixed-fault", "timeout", "crash", "exec-timeout",
+                                                            "timeout-1worker")
             sample = None
             if len(chk.samples) < 6 and name == "planned" and nchunks >= 2:
                 sample = {"class": cls, "cpus": spec["cpus"], "config_cpus": spec["cfg"], "timeout": timeout,
                           "batch": n, "sequential_outcomes": seq[:8], "implementation": out[:10], "schedule": schedule[:12]}
             chk.note_case(flat, nontrivial, sample)
-    # the property itself, on every implementation output (decidable specification evaluated by the model)
+    npp = sum(1 for spec, _name in meta if spec["kind"] == "preproc")      # these cases come first
+    model_outs = common.correspondence(chk, cases[:npp], impl_outs[:npp], spec_fn_offset=None, describe=describe,
+                                       label="pre_process_sequences pipeline: model vs implementation")
+    model_outs += common.correspondence(chk, cases[npp:], impl_outs[npp:], spec_fn_offset=SPEC_OFFSET, describe=describe)
+    # the property itself, on every implementation output (decidable specification evaluated by the model:
+    # tspec_ok = the dispatcher's sequential specification with the timeout clause, independent of the worker
+    # count; second number = finding class of the input)
     spec_cases = [[c[0], c[1] + SPEC_OFFSET] + c[2:] + o for c, o in zip(cases, impl_outs)]
     verdicts = common.run_driver(spec_cases)
     for i, verdict in enumerate(verdicts):
-        if verdict != [1]:
+        if verdict[:1] != [1]:
             spec, name = meta[i]
             if spec["kind"] == "preproc":
                 # the decidable specification compares with the MODEL's in-process pipeline.  The property itself
@@ -1269,17 +1365,39 @@ def run(chk):
                 continue
             if spec["class"] == "crash" and spec["timeout"] is None and KNOWN_HANG in known and impl_outs[i] == [1, E_HANG]:
                 continue      # recorded finding; the model transcribes the hang (compared below)
-            chk.violation("counterexample", "parallel result differs from the sequential run "
+            if (verdict[1:2] == [2] and cases[i][1] == FN_PF and KNOWN_K2 in known
+                    and known[KNOWN_K2].get("class") == K2_CLASS and impl_outs[i] == model_outs[i]
+                    and impl_outs[i][0] == 0):
+                # recorded finding C18-K2: input in the class (model: finding_K2), class listed, and the
+                # implementation behaves as the faithful model does (the list comes back, the timeout is ignored)
+                chk.count("finding_K2_cases")
+                chk.known(known[KNOWN_K2]["what_fails"])
+                continue
+            chk.violation("counterexample", "outcome differs from the dispatcher's sequential specification (error when a "
+                          "job exceeds the timeout or raises, otherwise the results in argument order) "
                           f"({describe(cases[i])['function']}, class {spec['class']})",
-                          {"theorem_or_correspondence": "C18_order / C18_failure_surfaces (spec_ok on the implementation's output)",
+                          {"theorem_or_correspondence": "C18_order / C18_failure_surfaces / C18_execute_timeout_surfaces / "
+                                                        "C18_execute_equals_dispatch_spec (tspec_ok on the implementation's output)",
                            "flat": cases[i], "implementation": impl_outs[i],
                            "input": {k: v for k, v in spec.items() if k != "records" or spec["kind"] == "preproc"},
+                           "jobs_exceeding_the_timeout": [j for j, f in enumerate(slow_flags(spec, len(spec.get("tasks") or spec.get("commands") or []))) if f][:20]
+                           if spec["kind"] in ("work", "exec") else [],
                            "spec_verdict_on_implementation_output": verdict})
             break
-    npp = sum(1 for spec, _name in meta if spec["kind"] == "preproc")      # these cases come first
-    model_outs = common.correspondence(chk, cases[:npp], impl_outs[:npp], spec_fn_offset=None, describe=describe,
-                                       label="pre_process_sequences pipeline: model vs implementation")
-    model_outs += common.correspondence(chk, cases[npp:], impl_outs[npp:], spec_fn_offset=SPEC_OFFSET, describe=describe)
+    # the planned schedules agree with the duration classes (model fn 7): no chunk with a slow job reports before
+    # the timeout; the clock only advances while such a chunk runs
+    if planned:
+        flags = common.run_driver([[c[0], FN_TIMELY] + c[2:] for c, _cls in planned])
+        for (flat, cls), flag in zip(planned, flags):
+            chk.count("planned_schedules")
+            if flag[:1] == [1]:
+                chk.count("planned_schedules_respecting_durations")
+            elif cls in ("timeout", "exec-timeout"):
+                chk.violation("broken-correspondence", "a planned schedule lets a chunk with a slow job report before the "
+                              "timeout (harness planning does not match the model's duration classes)",
+                              {"theorem_or_correspondence": "respects_durations (harness planning)", "flat": flat})
+            if flag[1:2] == [1]:
+                chk.count("planned_schedules_timely")
     chk.crosscheck_vm(cases, model_outs)
     chk.extra["implementation_runs"] = len(specs)
     return chk.finish(RULE, trusted_extra=[
